@@ -235,7 +235,7 @@ Proof.
                               let '(t1, r', fp1') := get_session verify t parsed match o with Login c | Sso _ c | Launch _ c => c | _ => NoCreds end fpa in
                               same_but_registry s1 t1 /\ r = r' /\ fp1 = fp1') as KG.
   { intros. now apply get_session_sbr. }
-  destruct o as [n pw pr|n|n|cl|id md|id|n sp|n|c|rq c|n c|id|id|dt|]; cbn [step].
+  destruct o as [n pw pr|n|n|kc|id md|id|n sp|n|c|rq c|n c|id|id|dt|]; cbn [step].
   1-4,7-8,12-15:
     destruct s as [us ss sv sc rg cl ra lg], t as [ut st svt sct rgt clt rat lgt]; cbn in U, Se, Sv, Sc, Cl, Ra, Lg, Rg;
     subst ut st svt sct clt rat lgt;
